@@ -28,6 +28,11 @@ static float g_copysignf(float a, float b) { return copysignf(a, b); }
 #define isinf(x) (__builtin_isinf(x) != 0)
 #define signbit(x) (__builtin_signbit(x) != 0)
 /* uninterpreted functions := glibc */
+static double __CPROVER_uninterpreted_vm_rem_r(double x, double y) { (void)x; (void)y; return want_d; }
+static long long __CPROVER_uninterpreted_vm_rem_k(double x, double y) { (void)x; (void)y; return want_k; }
+static float __CPROVER_uninterpreted_vm_rem_rf(float x, float y) { (void)x; (void)y; return want_f; }
+static long long __CPROVER_uninterpreted_vm_rem_kf(float x, float y) { (void)x; (void)y; return want_k; }
+#define VM_REM_UF_DEFINED 1
 #define __CPROVER_uninterpreted_vm_pow(b, e) (pow)(b, e)
 #define __CPROVER_uninterpreted_vm_sqrt(x) (sqrt)(x)
 #define __CPROVER_uninterpreted_vm_sqrtf(x) (sqrtf)(x)
@@ -68,10 +73,10 @@ static void check_rem(double x, double y) {
   double ay = fabs(y);
   want_d = r;
   /* the integer quotient: exact for the domain in which the model is exact */
-  if ((ay == 360.0 || ay == 90.0) && fabs(x) < 4503599627370496.0 && !isnan(r)) want_k = llround((x - r) / ay); else want_k = q;
+  if ((ay == 360.0 || ay == 90.0 || ay == 720.0) && fabs(x) < 4503599627370496.0 && !isnan(r)) want_k = llround((x - r) / ay); else want_k = q;
   int mq = 0; double m = vm_remquo(x, y, &mq);
   if (!same(m, r)) { if (++mismatches < 10) fprintf(stderr, "remquo(%a,%a): model %a glibc %a\n", x, y, m, r); }
-  if ((ay == 360.0 || ay == 90.0) && fabs(x) < 4503599627370496.0 && !isnan(r) && ((mq - q) & 7) != 0 && !(y < 0)) { if (++mismatches < 10) fprintf(stderr, "remquo(%a,%a): quotient bits model %d glibc %d\n", x, y, mq, q); }
+  if ((ay == 360.0 || ay == 90.0 || ay == 720.0) && fabs(x) < 4503599627370496.0 && !isnan(r) && ((mq - q) & 7) != 0 && !(y < 0)) { if (++mismatches < 10) fprintf(stderr, "remquo(%a,%a): quotient bits model %d glibc %d\n", x, y, mq, q); }
   want_d = (remainder)(x, y);
   if (!same(vm_remainder(x, y), want_d)) ++mismatches;
 }
@@ -80,12 +85,12 @@ int main(int argc, char **argv) {
   double specials[] = { 0.0, -0.0, 1.0, -1.0, 45.0, -45.0, 90.0, 135.0, 180.0, -180.0, 225.0, 270.0, 360.0, 540.0, -540.0, 1e15, -1e15, 4503599627370495.5,
                         4503599627370496.0, 1e300, INFINITY, -INFINITY, NAN, DBL_MIN, -DBL_MIN, 4.9e-324, -4.9e-324, 179.99999999999997, 180.00000000000003, 30.0, 60.0, 150.0 };
   int ns = sizeof specials / sizeof specials[0];
-  for (int i = 0; i < ns; ++i) { check_rem(specials[i], 360.0); check_rem(specials[i], 90.0); }
+  for (int i = 0; i < ns; ++i) { check_rem(specials[i], 360.0); check_rem(specials[i], 90.0); check_rem(specials[i], 720.0); }
   for (long i = 0; i < 1000000; ++i) {
     double x = rnd_double();
-    check_rem(x, 360.0); check_rem(x, 90.0);
+    check_rem(x, 360.0); check_rem(x, 90.0); check_rem(x, 720.0);
     double z = ((double)(long long)(rnd() % 2000000001ULL) - 1e9) / 1024.0;   /* moderate magnitudes, many exact ties */
-    check_rem(z, 360.0); check_rem(z, 90.0); check_rem(45.0 * (double)((long long)(rnd() % 200001) - 100000), 90.0);
+    check_rem(z, 360.0); check_rem(z, 90.0); check_rem(z, 720.0); check_rem(360.0 * (double)((long long)(rnd() % 20001) - 10000), 720.0); check_rem(45.0 * (double)((long long)(rnd() % 200001) - 100000), 90.0);
   }
   /* range-only models: glibc must satisfy every stated fact */
   for (long i = 0; i < 300000; ++i) {
